@@ -61,8 +61,8 @@ def vectors(ctx):
                 sent.append(f)
             frames.append(f)
             amps.append(same_amp if k % 3 else rng.randrange(300, 1401))
-            flen = 16 + 16 * len(f)
-            gaps.append(flen + rng.randrange(0, 2 * flen))
+            flen = 16 * len(f)            # one frame length (the 56 / 112 data bits) of noise is the minimum the statement allows
+            gaps.append(flen + rng.choice([0, 0, 1, 2, 16, rng.randrange(0, 2 * flen)]))
         amin = min(amps) if amps else 300
         # noise class: "quiet" = every noise sample below 0.2 x the weakest pulse (minus a margin for the comparison
         # against 0.2 x max of the slicing window when amplitudes differ); "ten_db" = up to -10 dB of the weakest pulse
@@ -92,7 +92,7 @@ def run(ctx):
                         "fully quiet 100-us window, as any real 100 ms buffer does"]
     import os
     from .. import tlc
-    cfg = open(os.path.join(tlc.SPEC_DIR, "MC_C19.cfg")).read().replace("MaxFrames = 1", "MaxFrames = %d" % ctx.pick(1, 2))
+    cfg = open(os.path.join(tlc.SPEC_DIR, "MC_C19.cfg")).read().replace("MaxFrames = 1", "MaxFrames = %d" % ctx.pick(1, 2)).replace("MaxOff = 1", "MaxOff = %d" % ctx.pick(1, 3))
     ctx.model_check("MC_C19", cfg_text=cfg, what="C19 modulate/demodulate identity", timeout=6000)
     ev, rej = ctx.check_events(vectors(ctx), case_of=case_of, shards=16)
     ctx.extra["buffers_by_noise_class"] = {c: sum(1 for e in ev if e["cls"] == c) for c in ("quiet", "ten_db", "ten_db_abs")}
